@@ -61,9 +61,9 @@ for _d in sorted(os.listdir(os.path.join(VERIF, "seeded"))):
     _first = _j.get("check_detected_before_extension", _j.get("check_detected")) or [False]
     _t = _rounds.setdefault(_r, [0, 0, 0]); _t[0] += 1; _t[1] += all(_first); _t[2] += all(_j.get("check_detected") or [False])
 _n = sum(t[0] for t in _rounds.values()); _f = sum(t[1] for t in _rounds.values()); _a = sum(t[2] for t in _rounds.values())
-out.append("%d rounds of (up to) twenty changes each were run (from the second round on every agent was also told, in one sentence each," % len(_rounds))
+out.append("%d rounds of (up to) twenty changes each were run (in rounds two to ten every agent was also told, in one sentence each," % len(_rounds))
 out.append("what the earlier changes for its property had been, and asked for a different part of the behaviour, code path or kind")
-out.append("of trigger; the last round covered ten properties only).  Detected at once, per round: %s (%d of %d); after the extensions listed in 11.3, %d of %d are" % (", ".join("%d/%d" % (_rounds[r][1], _rounds[r][0]) for r in sorted(_rounds)), _f, _n, _a, _n))
+out.append("of trigger; the tenth round covered ten properties only; the eleventh, run in the last hour, again covered all twenty, its agents were told nothing about the earlier changes - several of its changes (C01, C10, C15, C20) repeat the shape of an earlier change or of a defect repaired earlier - and it had no time budget for extensions).  Detected at once, per round: %s (%d of %d); after the extensions listed in 11.3, %d of %d are" % (", ".join("%d/%d" % (_rounds[r][1], _rounds[r][0]) for r in sorted(_rounds)), _f, _n, _a, _n))
 out.append("detected on 3 of 3 seeds.  The rate of first-go detection does not climb from round to round - each round asks for")
 out.append("something *different* from everything caught before - so the useful reading is not the percentage but the list in")
 out.append("11.3: what the generators could not produce, one item at a time, until it could.  Several of the extensions exposed")
